@@ -34,3 +34,7 @@ claim("C10",
  "parseJSON and flattenKVPairs are total and functionally specified (hclog keys moved only when strings, the remaining keys enumerated once each with their values); logStderr's per-line contract (verbatim copy then newline placement, continuation flag, exactly one log record per line at the level given by hclog JSON / [LEVEL] prefix / panic mode, kv arguments) is a loop invariant proved for every ReadLine result; the stderr and stdout reader goroutines return only when their stream is finished or broken and always signal their wait groups.",
  "bufio.Reader.ReadLine, bufio.Scanner, encoding/json, hclog are assumed contracts; 'unchanged' is relative to ReadLine's notion of a line. Fixed defects D7 (unchecked type assertions) and D8 (stdout no longer drained after a scanner error).",
  "DESIGN.md section 7 C10")
+claim("C06",
+ "Lock and channel invariants of MuxBroker: every pending slot stored under key k has ghost key k and its channel only ever carries connections whose first wire word is k; Accept(id) returns only such a connection and acks id; Dial(id) writes id and accepts only ack id; the net/rpc dispenser serves the implementation it created on the id it returned and the client dials the id it was given; NextId is a single atomic increment (distinct for fewer than 2^32 calls). A pure SMT lemma joins both ends.",
+ "yamux stream pairing and FIFO delivery are assumed (lemma hypothesis); 'both succeed inside the ~5 s window' is timing and not decided. Documented precondition: one outstanding Accept per id.",
+ "DESIGN.md section 7 C06")
